@@ -116,9 +116,23 @@ def _who_may_write(ck, prog, E):
                     fld = parts[1]
                 if fld in WRITERS or fld == "*":
                     direct.setdefault(fld, set()).add((s.f.cls, s.f.name, where))
+    # a private helper that is called only from allowed writers (recursively) writes on their behalf
+    callers = {}
+    for key, s in E.sum.items():
+        for callee, recv, _, _ in s.calls:
+            if callee.cls == "Sequence" and ("self" in recv):
+                callers.setdefault(callee.name, set()).add((s.f.cls, s.f.name))
+
+    def may_write(name, allowed, depth=0):
+        if name in allowed:
+            return True
+        if depth > 4 or not name.startswith("_") or name.startswith("__init"):
+            return False
+        cs = callers.get(name, set())
+        return bool(cs) and all(c == "Sequence" and may_write(n, allowed, depth + 1) for c, n in cs)
     for fld, allowed in sorted(WRITERS.items()):
         got = direct.get(fld, set())
-        extra = sorted((c, n, w) for c, n, w in got if not (c == "Sequence" and n in allowed))
+        extra = sorted((c, n, w) for c, n, w in got if not (c == "Sequence" and may_write(n, allowed)))
         ck.ob("EFF-who-may-write", SEQ_PATH + ":Sequence." + fld, not extra, expected=sorted(allowed),
               found=sorted({n for _, n, _ in got}) if not extra else extra, slot="writers", note="who-may-write table")
     ck.ob("EFF-who-may-write", SEQ_PATH + ":Sequence.*", not direct.get("*"), expected="no whole-object mutation", found=sorted(direct.get("*", [])),
@@ -251,6 +265,13 @@ def _memo(ck, prog, E):
     regimes = _regimes(f, arms, rest)
     for name, stmts in regimes:
         writes = [n for st in stmts for n in ast.walk(st) if isinstance(n, ast.Assign) and any(is_self_attr(t, "seqDeltaMax") for t in n.targets)]
+        # ... or through a helper of the receiver that writes it
+        for st in stmts:
+            for n in ast.walk(st):
+                if isinstance(n, ast.Call) and isinstance(n.func, ast.Attribute) and is_self_attr(n.func):
+                    callee = prog.method("Sequence", n.func.attr)
+                    if callee is not None and "seqDeltaMax" in E.sum[callee.key].self_writes:
+                        writes.append(n)
         ck.ob("MEMO-M4", construct, bool(writes), expected="regime writes self.seqDeltaMax (under the flag)", found=len(writes),
               slot="regime:" + name, where=f.loc(stmts[0]) if stmts else f.loc(),
               note="branch-level necessary condition for 'returns ... a sequence'")
@@ -413,18 +434,17 @@ def _mdef(ck, prog, E, api):
             guard = st
     ok_i = ok_ii = False
     lits = []
+    ck.shape(guard is not None, "linearCompositions: emptiness test of the groups parameter", f.loc())
     if guard is not None:
         else_calls = [n for b in guard.orelse for n in ast.walk(b) if isinstance(n, ast.Call) and isinstance(n.func, ast.Attribute)
                       and n.func.attr in ("append", "extend", "insert") and unparse(n.func.value) == "grps"]
         all_muts = [n for n in ast.walk(f.node) if isinstance(n, ast.Call) and isinstance(n.func, ast.Attribute)
                     and n.func.attr in ("append", "extend", "insert", "pop", "remove", "clear", "sort") and unparse(n.func.value) == "grps"]
-        ok_i = len(else_calls) == len(all_muts) == len(sites) and bool(else_calls)
-        try:
-            lits = [tab.literal(f.mod, c.args[0]) for c in else_calls]
-            aas = set(tab.global_literal(prog, tab.AA, "TWENTY_AAs"))
-            ok_ii = all(isinstance(g, list) and g and all(isinstance(x, str) and x in aas and x.isupper() for x in g) for g in lits)
-        except Undecided:
-            ok_ii = False
+        ok_i = len(else_calls) == len(all_muts) and bool(else_calls)
+        # premise (ii) needs the appended values as literals; a fill written as a loop over a constant is not decided here
+        lits = [tab.literal(f.mod, c.args[0]) for c in else_calls]          # raises Undecided when not literal
+        aas = set(tab.global_literal(prog, tab.AA, "TWENTY_AAs"))
+        ok_ii = all(isinstance(g, list) and g and all(isinstance(x, str) and x in aas and x.isupper() for x in g) for g in lits)
     ck.ob("MDEF-idempotent-fill", construct, ok_i, expected="every mutation of the default is dominated by the emptiness test of that parameter",
           found={"guard": unparse(guard.test) if guard is not None else None, "sites": len(sites)}, slot="premise-i", where=f.loc())
     ck.ob("MDEF-idempotent-fill", construct, ok_ii, expected="only literal groups of upper-case amino-acid letters are appended (one fixed post-state)",
